@@ -107,3 +107,14 @@ func lastAttempt(tail string) string {
 	}
 	return l
 }
+
+// jsonRoundTrip copies in to out through the JSON encoding.
+func jsonRoundTrip(in interface{}, out interface{}) {
+	raw, err := json.Marshal(in)
+	if err != nil {
+		panic(err)
+	}
+	if err := json.Unmarshal(raw, out); err != nil {
+		panic(err)
+	}
+}
